@@ -66,7 +66,8 @@ class ComplexSqrt(NumPyPrintable):
 
     def __print_complex(self, printer: Printer) -> str:
         expr = self.get_definition()
-        return printer._print(expr)
+        # parentheses, because assumptions can reduce the definition to e.g. a product
+        return f"({printer._print(expr)})"
 
     def get_definition(self) -> sp.Piecewise:
         """Get a symbolic definition for this expression class."""
